@@ -1235,29 +1235,26 @@ func (t *ZeroAllocTokenizer) TokenizeOptimized() ([]Token, error) {
 		var endTokenType int
 		var endLength int
 
+		// A closing delimiter may carry a whitespace-control dash whether or not
+		// the opening delimiter has one; the dash must lie inside the tag content
+		// (an opening "{{-" directly followed by "}}" has no closing dash)
+		hasEndDash := tagEndPos > tagContentStart && t.source[tagEndPos-1] == '-'
+
 		switch tagLoc.Type {
-		case TAG_VAR:
-			endTokenType = TOKEN_VAR_END
-			endLength = 2 // }}
-		case TAG_VAR_TRIM:
-			// Check if it ends with -}}
-			if tagEndPos > 0 && t.source[tagEndPos-1] == '-' {
+		case TAG_VAR, TAG_VAR_TRIM:
+			if hasEndDash {
 				endTokenType = TOKEN_VAR_END_TRIM
-				endLength = 3 // -}}
+				endLength = 2 // tagEndPos is the position of }} (the dash lies before it)
 				// Adjust tag content to remove the trailing dash
 				tagContent = tagContent[:len(tagContent)-1]
 			} else {
 				endTokenType = TOKEN_VAR_END
 				endLength = 2 // }}
 			}
-		case TAG_BLOCK:
-			endTokenType = TOKEN_BLOCK_END
-			endLength = 2 // %}
-		case TAG_BLOCK_TRIM:
-			// Check if it ends with -%}
-			if tagEndPos > 0 && t.source[tagEndPos-1] == '-' {
+		case TAG_BLOCK, TAG_BLOCK_TRIM:
+			if hasEndDash {
 				endTokenType = TOKEN_BLOCK_END_TRIM
-				endLength = 3 // -%}
+				endLength = 2 // tagEndPos is the position of %} (the dash lies before it)
 				// Adjust tag content to remove the trailing dash
 				tagContent = tagContent[:len(tagContent)-1]
 			} else {
